@@ -47,6 +47,18 @@ pub struct ServerCase {
     /// `Connection: close` instead of its plain requests; its handler leaves the body alone
     #[serde(default)]
     pub body_close: bool,
+    /// `unblock()` is called once before any application thread exists (nobody is blocked): the
+    /// application threads then only poll with try_recv (apis = [2])
+    #[serde(default)]
+    pub stray_unblock: bool,
+    /// `unblock()` is called once while the application threads - all of them stepping one
+    /// `incoming_requests()` iterator each, again and again (apis = [3]) - are receiving
+    #[serde(default)]
+    pub mid_unblock: bool,
+    /// connections per burst that send a head announcing a small body, part of that body, and
+    /// then close their sending side: they get nothing, hold nobody up and leave no thread behind
+    #[serde(default)]
+    pub truncated: usize,
     pub tape: Vec<u8>,
 }
 
@@ -67,7 +79,11 @@ pub fn server_strategy(max_burst: usize, for_c20: bool) -> BoxedStrategy<ServerC
             // (C08/C07) every other case: the handlers hold their requests until all of them have one
             let hold = !for_c20 && tape.len() % 2 == 1;
             let body_close = !for_c20 && tape.len() % 3 == 1;
-            ServerCase { bursts, reqs_per_conn, handlers, apis, stalled: if idle_ms > 0 { 0 } else { stalled }, trickle, idle_ms, drop_mode, hold, body_close, tape }
+            let stray_unblock = tape.len() % 7 == 3;
+            let mid_unblock = tape.len() % 7 == 5;
+            let apis = if stray_unblock { vec![2] } else if mid_unblock { vec![3] } else { apis };
+            let truncated = if tape.len() % 5 == 1 { 1 + tape.len() % 2 } else { 0 };
+            ServerCase { bursts, reqs_per_conn, handlers, apis, stalled: if idle_ms > 0 { 0 } else { stalled }, trickle, idle_ms, drop_mode, hold, body_close, stray_unblock, mid_unblock, truncated, tape }
         })
         .boxed()
 }
@@ -129,6 +145,12 @@ pub fn run_server_case(prop: &'static str, case: &ServerCase) -> Verdict {
                 o.violations.push((k.to_string(), d));
             }
         };
+        let unblocks_issued = Arc::new(AtomicUsize::new(0));
+        let empty_returns = Arc::new(AtomicUsize::new(0));
+        if c.stray_unblock {
+            unblocks_issued.fetch_add(1, Ordering::SeqCst);
+            server.unblock();
+        }
         // application threads
         let stop = Arc::new(AtomicBool::new(false));
         let hdone = Arc::new(Gate { st: rt::sync::Mutex::new(GateSt::default()), cv: rt::sync::Condvar::new() });
@@ -141,8 +163,16 @@ pub fn run_server_case(prop: &'static str, case: &ServerCase) -> Verdict {
             let api = if c.apis.is_empty() { 0 } else { c.apis[hi % c.apis.len()] };
             let stop = stop.clone();
             let hdone = hdone.clone();
+            let (issued, empties, o4) = (unblocks_issued.clone(), empty_returns.clone(), o2.clone());
             handlers.push(shuttle::thread::spawn(move || {
                 let answer = |rq: tiny_http::Request| {
+                    // what is handed over is what a client sent: GET (or POST) /r<id>
+                    if !matches!(rq.method(), tiny_http::Method::Get | tiny_http::Method::Post) || !rq.url().starts_with("/r") {
+                        let mut o = o4.lock().unwrap();
+                        if o.violations.is_empty() {
+                            o.violations.push(("delivered-request-differs-from-what-was-sent".into(), format!("the application was handed {:?} {:?}; every client sends GET or POST /r<id>", rq.method(), rq.url())));
+                        }
+                    }
                     if hold {
                         let mut d = held.0.lock().unwrap();
                         *d += 1;
@@ -188,8 +218,26 @@ pub fn run_server_case(prop: &'static str, case: &ServerCase) -> Verdict {
                         }
                     }
                     3 => {
-                        for rq in s.incoming_requests() {
-                            answer(rq);
+                        // one iterator, stepped again after it came back empty-handed: every
+                        // empty-handed step is paid for by one unblock() call
+                        let mut it = s.incoming_requests();
+                        loop {
+                            match it.next() {
+                                Some(rq) => answer(rq),
+                                None => {
+                                    let n = empties.fetch_add(1, Ordering::SeqCst) + 1;
+                                    if n > issued.load(Ordering::SeqCst) {
+                                        let mut o = o4.lock().unwrap();
+                                        if o.violations.is_empty() {
+                                            o.violations.push(("receive-came-back-empty-handed-without-an-unblock".into(), format!("{} steps of incoming_requests() iterators returned nothing, unblock() was called {} times", n, issued.load(Ordering::SeqCst))));
+                                        }
+                                        break;
+                                    }
+                                    if stop.load(Ordering::SeqCst) {
+                                        break;
+                                    }
+                                }
+                            }
                         }
                     }
                     _ => {
@@ -202,6 +250,10 @@ pub fn run_server_case(prop: &'static str, case: &ServerCase) -> Verdict {
                 st.have_response += 1;
                 hdone.cv.notify_all();
             }));
+        }
+        if c.mid_unblock {
+            unblocks_issued.fetch_add(1, Ordering::SeqCst);
+            server.unblock();
         }
         // connections that stall in the middle of a request head: they occupy a worker each and
         // must not hold anybody else up
@@ -269,6 +321,15 @@ pub fn run_server_case(prop: &'static str, case: &ServerCase) -> Verdict {
                     cl.wait_output(|_, closed| closed);
                 }));
             }
+            // connections whose client gives up inside a small body
+            let mut truncated_clients = vec![];
+            for _ in 0..c.truncated {
+                if let Ok(cl) = listener.connect() {
+                    cl.send(b"POST /rtrunc HTTP/1.1\r\nHost: h\r\nContent-Length: 10\r\n\r\nabc");
+                    cl.close_write();
+                    truncated_clients.push(cl);
+                }
+            }
             {
                 let mut st = gate.st.lock().unwrap();
                 while st.have_response < b {
@@ -276,6 +337,10 @@ pub fn run_server_case(prop: &'static str, case: &ServerCase) -> Verdict {
                 }
                 st.open = true;
                 gate.cv.notify_all();
+            }
+            for cl in &truncated_clients {
+                // the server gives the connection up: its side ends too
+                cl.wait_output(|_, closed| closed);
             }
             for cjoin in clients {
                 let _ = cjoin.join();
@@ -342,6 +407,7 @@ pub fn run_server_case(prop: &'static str, case: &ServerCase) -> Verdict {
             if d >= c.handlers {
                 break;
             }
+            unblocks_issued.fetch_add(1, Ordering::SeqCst);
             server.unblock();
             let mut st = hdone.st.lock().unwrap();
             while st.have_response == d {
@@ -494,6 +560,9 @@ pub fn run_server_case(prop: &'static str, case: &ServerCase) -> Verdict {
         .class_if(case.stalled > 0, "stalled-connections")
         .class_if(case.hold, "handlers-hold-their-requests")
         .class_if(case.body_close, "streamed-body-on-a-closing-connection")
+        .class_if(case.stray_unblock, "stray-unblock-then-try_recv-only")
+        .class_if(case.mid_unblock, "unblock-while-iterators-are-stepped")
+        .class_if(case.truncated > 0, "client-gives-up-inside-a-small-body")
         .class_if(case.trickle > 0, "light-traffic-after-burst")
         .class_if(case.apis.iter().any(|a| *a != 0), "mixed-receive-apis")
         .class_if(o.lib_threads_spawned > 5, "extra-workers-spawned")
